@@ -475,7 +475,14 @@ impl AsnDefWriter {
         extension_after_field: Option<usize>,
         ordering: EncodingOrdering,
     ) {
-        Self::write_common_constraint_type(scope, name, tag.unwrap_or(Tag::DEFAULT_SEQUENCE));
+        Self::write_common_constraint_type(
+            scope,
+            name,
+            tag.unwrap_or(match ordering {
+                EncodingOrdering::Keep => Tag::DEFAULT_SEQUENCE,
+                EncodingOrdering::Sort => Tag::DEFAULT_SET,
+            }),
+        );
 
         let sorted;
         let (fields, module) = match ordering {
